@@ -173,6 +173,20 @@ func worldReset() {
 	dialRefused, peerCloses, peerAborts, peerStalls, badMsgs, garbageMsgs, streamCuts = 0, 0, 0, 0, 0, 0, 0
 }
 
+var (
+	progressCtr uint64
+	runActive   bool
+)
+
+//go:norace
+func progress() { progressCtr++ }
+
+//go:norace
+func setActive(a bool) { runActive = a; progressCtr++ }
+
+//go:norace
+func progressNow() (uint64, bool) { return progressCtr, runActive }
+
 //go:norace
 func bump(p *int) { *p++ }
 
@@ -952,7 +966,10 @@ func runPool(c *sim.Ctx) {
 	drainSteps := 0
 	var drainStart time.Time
 	finished := false
+	setActive(true)
+	defer setActive(false)
 	for {
+		progress()
 		synctest.Wait()
 		c.SimNanos = int64(time.Since(start))
 		parked := collectParked()
